@@ -31,19 +31,28 @@
  *               sizes beyond the data are cut down (so 0 appears)
  *        For every payload in order on ONE connection: server->client (real send_frame/websocket_compress, the
  *        peer = RFC 7692 client built directly on zlib inflates) and client->server (peer deflates, the real
- *        receive path inflates):  -> rt [need=<n> s2c=<ok|bad|fail:..> c2s=<ok|bad|err:..> n=<complen> frags=<sizes>]...
+ *        receive path inflates):  -> rt [need=<n> db=<n> bound=<n|-> s2c=<ok|bad|fail:..> c2s=<ok|bad|err:..> n=<complen> frags=<sizes>]...
  *        need = bytes zlib emits for this message incl. the tail (measured on a deflateCopy of the real stream;
- *        -1 when that stream is no longer usable): websocket_compress offers it 2*len bytes (finding F37)
+ *        0 when deflate refuses, -1 when that stream is no longer usable), db = deflateBound(len),
+ *        bound = websocket_compress_bound(len) (the buffer send_frame allocates; `-` on a tree without it)
  *   dec <setup> <mode> <cuts> <hexstream>          arbitrary bytes as a compressed message to the receive path
  *                               -> dec ret=<OK|ERROR|CLOSED> n=<outlen> h=<fnv of output>
  *   mut <setup> <mode> <cuts> <mutation> <hexpayload>   peer-compress the payload, damage the stream, feed it
  *        mutation  flip:<bit> | trunc:<n> | ins:<pos>:<byte> | set:<pos>:<byte>   (positions modulo the length)
  *                               -> mut ret=.. n=.. same=<0|1> clen=<n>
- *   comp <setup> <hexpayload>   websocket_compress alone into an exactly 2*len byte buffer
- *                               -> comp full=<hex> ret=<n> out=<hex> tail=<0|1>
- *                                  full = everything zlib emits for the message (measured on a deflateCopy of the
- *                                  real stream before the call), tail = the 4 bytes removed were 00 00 ff ff.
- *                                  The model answers `comp <len> <fullhex>` with the same ret/out/tail (or WILD).
+ *   comp <setup> <dest> <hexpayload>...
+ *        the compressor alone, every payload in order on ONE connection, into a heap buffer of exactly `size` bytes:
+ *        dest  w  = websocket_compress() (the 2*len contract of the tests), size = 2*len
+ *              b  = websocket_compress_bounded() with size = websocket_compress_bound(len) (what send_frame does)
+ *              +k / -k / =n  = websocket_compress_bounded() with size = need+k / need-k / n
+ *        setup may be L0:... (level 0: the payload is copied)
+ *        -> comp [full=<hex|ERR> db=<deflateBound> bound=<websocket_compress_bound|-> size=<n> ret=<n> out=<hex|-> tail=<0|1> peer=<ok|bad|->]...
+ *           full = everything zlib emits for the message (measured on a deflateCopy of the real stream before the
+ *           call; ERR = deflate refuses, e.g. Z_BUF_ERROR for an empty message behind a flush), need = its length;
+ *           tail = the 4 bytes behind the returned data are 00 00 ff ff; peer = an RFC 7692 client inflates what was
+ *           returned to the payload (so messages behind a refused one must still decode).
+ *           The model answers `comp <level> <len> <size> <fullhex|ERR>` with the same ret/out/tail.
+ *        On a tree without websocket_compress_bounded() only `w` works (others print `nobounded`).
  */
 #include <ctype.h>
 #include <stdarg.h>
@@ -58,6 +67,12 @@
 #include "http_connection.h"
 #include "websocket.h"
 #include "zlib.h"
+
+/* present since the repair of F37; weak, so that the harness still links against a tree without them */
+int websocket_compress_bounded(const struct websocket *s, uint8_t *dest, size_t dest_size, uint8_t *src, size_t length);
+size_t websocket_compress_bound(const struct websocket *s, size_t length);
+#pragma weak websocket_compress_bounded
+#pragma weak websocket_compress_bound
 
 /* ------------------------------------------------------------------ stubs */
 static char last_log[512];
@@ -444,6 +459,29 @@ static void op_offer(char **w, int nw, bool exact)
 	del_ws();
 }
 
+/* What zlib emits for this message (sync/full flush, tail included), measured on a copy of the real deflate stream:
+ * its length, 0 when deflate refuses (Z_BUF_ERROR: nothing to do), -1 when the stream cannot be copied (ended).
+ * *full (if wanted) receives the bytes (caller frees), *db = deflateBound() of the stream for n bytes. */
+static long measure(uint8_t *payload, size_t n, uint8_t **full, long *db)
+{
+	z_stream cp;
+	long need = -1;
+	memset(&cp, 0, sizeof cp);
+	if (full) *full = NULL;
+	*db = -1;
+	if (ws->extension_compression.compression_level == 0) return -1;
+	if (deflateCopy(&cp, *(ws->extension_compression.strm_comp)) != Z_OK) return -1;
+	*db = (long)deflateBound(&cp, n);
+	size_t room = (size_t)*db + n / 8 + 256;
+	uint8_t *tb = malloc(room);
+	cp.next_in = payload; cp.avail_in = (uInt)n; cp.next_out = tb; cp.avail_out = (uInt)room;
+	int r = deflate(&cp, ws->extension_compression.server_no_context_takeover ? Z_FULL_FLUSH : Z_SYNC_FLUSH);
+	need = r < Z_OK ? 0 : (long)(room - cp.avail_out);
+	deflateEnd(&cp);
+	if (full && need > 0) *full = tb; else free(tb);
+	return need;
+}
+
 static void op_rt(char **w, int nw)
 {
 	if (nw < 5) { P("rt bad-args\n"); return; }
@@ -457,21 +495,11 @@ static void op_rt(char **w, int nw)
 	for (int m = 4; m < nw; m++) {
 		size_t n; uint8_t *payload = unhex(w[m], &n);
 		/* ---- server -> client through the real send path */
-		long need = -1;
-		if (!conn_closed) {
-			z_stream cp;
-			memset(&cp, 0, sizeof cp);
-			if (deflateCopy(&cp, *(ws->extension_compression.strm_comp)) == Z_OK) {
-				size_t bound = deflateBound(&cp, n) + 64;
-				uint8_t *tb = malloc(bound);
-				cp.next_in = payload; cp.avail_in = (uInt)n; cp.next_out = tb; cp.avail_out = (uInt)bound;
-				deflate(&cp, ws->extension_compression.server_no_context_takeover ? Z_FULL_FLUSH : Z_SYNC_FLUSH);
-				need = (long)(bound - cp.avail_out);
-				deflateEnd(&cp);
-				free(tb);
-			}
-		}
-		P(" [need=%ld s2c=", need);
+		long need = -1, db = -1;
+		if (!conn_closed) need = measure(payload, n, NULL, &db);
+		P(" [need=%ld db=%ld bound=", need, db);
+		if (websocket_compress_bound != NULL) P("%zu", websocket_compress_bound(ws, n)); else P("-");
+		P(" s2c=");
 		if (conn_closed) P("closed");
 		else {
 			uint8_t *copy = malloc(n ? n : 1);       /* exact size: send_frame may unmask/compress in place */
@@ -564,35 +592,51 @@ static void op_mut(char **w, int nw)
 
 static void op_comp(char **w, int nw)
 {
-	if (nw < 3) { P("comp bad-args\n"); return; }
+	if (nw < 4) { P("comp bad-args\n"); return; }
 	P("comp");
-	if (!setup(w[1])) { P(" noaccept\n"); del_ws(); return; }
-	size_t n; uint8_t *payload = unhex(w[2], &n);
-	/* what zlib emits for this message, measured on a copy of the real stream */
-	{
-		z_stream cp;
-		memset(&cp, 0, sizeof cp);
-		P(" full=");
-		if (deflateCopy(&cp, *(ws->extension_compression.strm_comp)) == Z_OK) {
-			size_t bound = deflateBound(&cp, n) + 64;
-			uint8_t *tb = malloc(bound);
-			cp.next_in = payload; cp.avail_in = (uInt)n; cp.next_out = tb; cp.avail_out = (uInt)bound;
-			deflate(&cp, ws->extension_compression.server_no_context_takeover ? Z_FULL_FLUSH : Z_SYNC_FLUSH);
-			puthex(tb, bound - cp.avail_out);
-			deflateEnd(&cp);
-			free(tb);
-		} else P("?");
+	bool level0 = w[1][0] == 'L' && w[1][1] == '0';
+	if (!setup(w[1]) && !level0) { P(" noaccept\n"); del_ws(); return; }
+	const char *spec = w[2];
+	bool bounded = strcmp(spec, "w") != 0;
+	if (bounded && (websocket_compress_bounded == NULL || websocket_compress_bound == NULL)) { P(" nobounded\n"); del_ws(); return; }
+	if (!level0) peer_init();
+	struct wire tmp = { 0 };
+	for (int m = 3; m < nw; m++) {
+		size_t n; uint8_t *payload = unhex(w[m], &n);
+		uint8_t *full = NULL; long db;
+		long need = measure(payload, n, &full, &db);
+		P(" [full=");
+		if (level0) P("-"); else if (need <= 0) P("ERR"); else puthex(full, (size_t)need);
+		P(" db=%ld bound=", db);
+		if (websocket_compress_bound != NULL) P("%zu", websocket_compress_bound(ws, n)); else P("-");
+		size_t base = need > 0 ? (size_t)need : 0, size;
+		if (level0) base = n;
+		if (!strcmp(spec, "w")) size = 2 * n;
+		else if (!strcmp(spec, "b")) size = websocket_compress_bound(ws, n);
+		else if (spec[0] == '+') size = base + strtoul(spec + 1, NULL, 10);
+		else if (spec[0] == '-') { size_t k = strtoul(spec + 1, NULL, 10); size = k < base ? base - k : 0; }
+		else size = strtoul(spec + 1, NULL, 10);
+		P(" size=%zu", size);
+		uint8_t *src = malloc(n ? n : 1); memcpy(src, payload, n);
+		uint8_t *dest = malloc(size ? size : 1);        /* exactly `size` bytes: every access outside reaches ASan */
+		int r = bounded ? websocket_compress_bounded(ws, dest, size, src, n) : websocket_compress(ws, dest, src, n);
+		P(" ret=%d out=", r);
+		if (r >= 0 && (size_t)r + (level0 ? 0 : 4) <= size) {
+			puthex(dest, (size_t)r);
+			if (level0) P(" tail=0 peer=-");
+			else {
+				P(" tail=%d", dest[r] == 0 && dest[r + 1] == 0 && dest[r + 2] == 0xff && dest[r + 3] == 0xff);
+				if (!peer_inflate(dest, (size_t)r, &tmp)) P(" peer=bad:inflate-error");
+				else if (tmp.len != n || memcmp(tmp.buf, payload, n) != 0) P(" peer=bad:differs(%zu)", tmp.len);
+				else P(" peer=ok");
+			}
+		} else P("- tail=0 peer=-");
+		P("]");
+		free(dest); free(src); free(payload); free(full);
 	}
-	uint8_t *src = malloc(n ? n : 1); memcpy(src, payload, n);
-	uint8_t *dest = malloc(n * 2 ? n * 2 : 1);
-	int r = websocket_compress(ws, dest, src, n);
-	P(" ret=%d out=", r);
-	if (r >= 0 && (size_t)r + 4 <= 2 * n) {
-		puthex(dest, (size_t)r);
-		P(" tail=%d", dest[r] == 0 && dest[r + 1] == 0 && dest[r + 2] == 0xff && dest[r + 3] == 0xff);
-	} else P("- tail=0");
 	P("\n");
-	free(dest); free(src); free(payload);
+	if (!level0) peer_end();
+	free(tmp.buf);
 	del_ws();
 }
 
